@@ -6,7 +6,7 @@ From V.c19 Require Import C19Model C19Spec C19InvProofs C19TrackProofs C19DescPr
 From V.c19 Require Import C19RecModel C19RecProofs C19RecLinkProofs.
 From V.c19 Require Import C19BoxCodec C19BoxModel.
 From V.c19 Require Import C19TreeModel C19TreeProofs C19TreeScopeProofs C19LeafProofs C19PrintParseProofs C19RoundtripProofs C19ArgsProofs.
-From V.c19 Require Import C19FragModel C19FragProofs C19DimsProofs C19EsdsProofs C19AacProofs.
+From V.c19 Require Import C19FragModel C19FragProofs C19DimsProofs C19EsdsProofs C19AacProofs C19AacHistProofs.
 From V.c18 Require C18Model C18EntryModel.
 From V.c15 Require C15Model C15Spec C15HevcModel C15HevcSpec C15Examples C15HevcExamples.
 From V.c05 Require C05Model C05FragModel C05HistProofs C05GhostProofs C05ReadProofs C05RoundProofs C05SingleProofs.
@@ -196,6 +196,31 @@ Theorem C19_descriptor_aac_typed :
       /\ C18Model.a_ot cfg = o /\ C18Model.a_freq cfg = Z.of_N f /\ C18Model.a_chan cfg = chan.
 Proof. exact aac_typed. Qed.
 Print Assumptions C19_descriptor_aac_typed.
+
+(* ... and at the level of whole histories: "the DECODED init carries the configuration supplied".  For EVERY history in the
+   scope of C19_roundtrip whose SetAACDescriptor frequencies are below 2^23 (aac_small), in the final state every sample entry
+   with an esds -- of any track, whatever calls came before and after -- is the entry some SetAACDescriptor(o, f) call built
+   (provenance, by induction over the history); its typed box mp4a{esds{ES{DecoderConfig{DecSpecificInfo asc}, SLConfig}}} occurs
+   inside the tree that C01's decoder returns for the encoded init (decode_file bs = Ok ts; inside: below moov / trak / mdia /
+   minf / stbl / stsd), and C18's DecodeAudioSpecificConfig model reads asc back as the configuration of that call. *)
+Theorem C19_decoded_init_aac :
+  forall (avc_parse : avc_parser) (hevc_parse : hevc_parser) (ops : list op),
+    N.of_nat (length ops) < 4294967295 -> Forall aac_small ops ->
+    let s := snd (run avc_parse hevc_parse ops) in
+    args_okb s = true -> forall ts, tree_of s = Some ts -> forallb enc_fits ts = true ->
+    exists bs, encode_seq false ts = Ok bs /\ decode_file bs = Ok ts
+      /\ forall t e asc, In t (traks s) -> In e (sd_entries t) -> se_cfg e = CfgEsds asc ->
+         exists o f b top,
+           f < 8388608
+           /\ e = mkSE (BS "mp4a") 1 (if o =? 29 then 1 else 2) 16 (f mod 65536) (CfgEsds asc)
+           /\ b = preb (LAudio (BS "mp4a") 1 (if o =? 29 then 1 else 2) 16 (f mod 65536)) [leafb (esds_leaf asc)]
+           /\ In top ts /\ inside b top
+           /\ esds_dec_config (esds_leaf asc) = Some asc
+           /\ C18Model.decode_asc asc = Ok (C18EntryModel.set_aac_asc o (Z.of_N f))
+           /\ C18Model.a_ot (C18EntryModel.set_aac_asc o (Z.of_N f)) = o
+           /\ C18Model.a_freq (C18EntryModel.set_aac_asc o (Z.of_N f)) = Z.of_N f.
+Proof. exact decoded_init_aac. Qed.
+Print Assumptions C19_decoded_init_aac.
 
 (* print-then-parse of the typed esds box around ANY decoder configuration of at most 100 bytes (one-byte size fields) *)
 Theorem C19_box_roundtrip_esds :
@@ -852,4 +877,17 @@ Proof.
   eexists; eexists; eexists. split; [vm_compute; reflexivity|]. split; [vm_compute; reflexivity|].
   split; [right; left; split; reflexivity|]. split; [reflexivity|]. split; [repeat constructor|].
   split; [vm_compute; reflexivity|]. vm_compute. reflexivity.
+Qed.
+
+(* the hypotheses of C19_decoded_init_aac are satisfiable: the ten calls of ex_ops (five tracks; track 2 gets HE-AAC v1 at
+   24000 Hz between an AVC and an stpp descriptor call): all AAC frequencies are small, the state is in range, and the final
+   state does hold an esds entry on track 2 *)
+Example C19_decoded_init_aac_hyp :
+  let s := snd (run ex_avc_parse ex_hevc_parse ex_ops) in
+  Forall aac_small ex_ops /\ args_okb s = true
+  /\ match tree_of s with Some ts => forallb enc_fits ts | None => false end = true
+  /\ exists t e asc, nth_error (traks s) 1 = Some t /\ sd_entries t = [e] /\ se_cfg e = CfgEsds asc /\ lenN asc = 4.
+Proof.
+  split; [repeat constructor|]. split; [vm_compute; reflexivity|]. split; [vm_compute; reflexivity|].
+  eexists; eexists; eexists. split; [vm_compute; reflexivity|]. split; [reflexivity|]. split; reflexivity.
 Qed.
